@@ -281,7 +281,8 @@ extern MPT_INTERFACE(metatype) *_mpt_iterator_range(MPT_STRUCT(value) *val)
 			return 0;
 		}
 		
-		if (step > (r.max - r.min)
+		if (!(step > 0)
+		  || step > (r.max - r.min)
 		  || step < (r.max - r.min) * 1e-6) {
 			errno = ERANGE;
 			return 0;
